@@ -23,7 +23,7 @@ import (
 	"verif/harness/sm"
 )
 
-const ruleC07 = "concurrent programs: after a generated sequential setup (1-2 collections, 3-8 documents, optional indexes) 2-8 goroutines each issue 2-6 generated operations (Insert batches with supplied ids, UpdateById, bulk Update/UpdateFunc/Delete, DeleteById, CreateIndex, DropIndex, FindAll, Count, FindById) on one handle over bbolt or badger; a store decorator consults a drawn bit vector before every store call and yields (Gosched) or sleeps up to 200 microseconds to perturb the schedule. The recorded call/return history with result digests must be linearizable with respect to the reference model (porcupine; a store conflict error is legal only as a no-op; a checker timeout is inconclusive, never a violation). A second phase shares one *query.Query / Criteria between goroutines that derive queries from it concurrently. The same cases run in a -race build; any data-race report is a violation. An evaluation is one concurrent program; non-trivial when at least two operations overlapped in real time on the same collection and one of them was a write; distinct = distinct programs (setup, operations, schedule bits)."
+const ruleC07 = "concurrent programs: after a generated sequential setup (1-2 collections, 3-8 documents, optional indexes) 2-8 goroutines each issue 2-6 generated operations (Insert batches with supplied ids, UpdateById, bulk Update/UpdateFunc/Delete, DeleteById, CreateIndex, DropIndex, CreateCollection, DropCollection, FindAll, Count, FindById, ListCollections) on one handle over bbolt or badger; a store decorator consults a drawn bit vector before every store call and yields (Gosched) or sleeps up to 200 microseconds to perturb the schedule. The recorded call/return history with result digests must be linearizable with respect to the reference model (porcupine; a store conflict error is legal only as a no-op; a checker timeout is inconclusive, never a violation); a sequential epilogue (Count without criteria, full and index-ordered scans, catalogs) is part of every history, so drift left behind by a race is seen too. A second phase shares one *query.Query / Criteria between goroutines that derive queries from it concurrently. The same cases run in a -race build; any data-race report is a violation. An evaluation is one concurrent program; non-trivial when at least two operations overlapped in real time on the same collection and one of them was a write; distinct = distinct programs (setup, operations, schedule bits)."
 
 type c07Op struct {
 	Client int         `json:"client"`
@@ -118,7 +118,8 @@ func checkHistory(h *c07History) (verdict string, fail *sm.Fail) {
 		if strings.HasPrefix(o.Out.Err, "panic") || o.Out.Err == "hang" {
 			return "illegal", &sm.Fail{Property: "C20", Clause: "no-panic-no-hang", Detail: fmt.Sprintf("concurrent %s: %s", o.Op.Kind, o.Out.Err)}
 		}
-		ops[i] = porcupine.Operation{ClientId: o.Client, Input: &o.Op, Call: o.Call, Output: o.Out, Return: o.Return}
+		in := sm.Materialize(o.Op)
+		ops[i] = porcupine.Operation{ClientId: o.Client, Input: &in, Call: o.Call, Output: o.Out, Return: o.Return}
 	}
 	res := porcupine.CheckOperationsTimeout(c07Model(m), ops, 30*time.Second)
 	switch res {
@@ -171,8 +172,9 @@ func runProgram07(p *c07Program) (*c07History, *sm.Fail) {
 			defer wg.Done()
 			<-gate
 			for i := range ops {
+				r := sm.Materialize(ops[i])
 				call := time.Since(start).Nanoseconds()
-				out := run.Exec(s.H.DB, &ops[i])
+				out := run.Exec(s.H.DB, &r)
 				ret := time.Since(start).Nanoseconds()
 				mu.Lock()
 				h.Ops = append(h.Ops, c07Op{Client: ci, Op: ops[i], Call: call, Return: ret, Out: out})
@@ -183,6 +185,23 @@ func runProgram07(p *c07Program) (*c07History, *sm.Fail) {
 	close(gate)
 	wg.Wait()
 	s.H.Deco.Yield = nil
+	// a sequential epilogue by one more client: counter-backed Count, full scans and catalogs of
+	// every collection. They are part of the history, so a drifted counter, a lost document or a
+	// duplicated index entry left behind by a race has no sequential explanation.
+	epilogue := []cs.Op{{Kind: "listcolls"}}
+	for _, name := range []string{"A", "B", "C", "D"} {
+		epilogue = append(epilogue, cs.Op{Kind: "count", Q: &cs.Query{Coll: name}}, cs.Op{Kind: "find", Q: &cs.Query{Coll: name}},
+			cs.Op{Kind: "listindexes", Coll: name})
+		for _, f := range []string{"x", "y", "u"} {
+			epilogue = append(epilogue, cs.Op{Kind: "find", Q: &cs.Query{Coll: name, SortSet: true, Sort: []cs.SortOpt{{Field: f, Dir: 1}}}})
+		}
+	}
+	for i := range epilogue {
+		call := time.Since(start).Nanoseconds()
+		out := run.Exec(s.H.DB, &epilogue[i])
+		ret := time.Since(start).Nanoseconds()
+		h.Ops = append(h.Ops, c07Op{Client: len(p.Clients), Op: epilogue[i], Call: call, Return: ret, Out: out})
+	}
 	return h, nil
 }
 
@@ -300,6 +319,136 @@ func init() {
 	registerSM("C07", "c07setup", func(b string) (*sm.Session, error) { return sm.NewSession("C07", "c07setup", b) })
 }
 
+// genProgram07 draws a concurrent program. kinds restricts the operation kinds of the
+// clients (nil = the C07 mix).
+func genProgram07(rt *rapid.T, kinds []string) (*c07Program, func() *cs.Crit, int) {
+	if kinds == nil {
+		kinds = []string{"insert", "insert", "updatebyid", "update", "updatefunc", "delete", "deletebyid", "createindex", "dropindex", "find", "find", "count", "findbyid", "catalog"}
+		if rapid.IntRange(0, 9).Draw(rt, "with-big-batch") == 0 {
+			kinds = append(kinds, "biginsert")
+		}
+	}
+	backend := rapid.SampledFrom([]string{run.Bbolt, run.BadgerMem}).Draw(rt, "backend")
+	vcfg := gen.ValCfg{MaxDepth: 0, NoTime: true}
+	dcfg := gen.DocCfg{Val: vcfg, PAbsent: 4, Fields: []string{"x", "y", "u"}}
+	p := &c07Program{Backend: backend}
+	colls := []string{"A"}
+	p.Setup = append(p.Setup, cs.Op{Kind: "createcoll", Coll: "A"})
+	if rapid.Bool().Draw(rt, "two-colls") {
+		colls = append(colls, "B")
+		p.Setup = append(p.Setup, cs.Op{Kind: "createcoll", Coll: "B"})
+	}
+	nseed := rapid.IntRange(3, 8).Draw(rt, "nseed")
+	for _, c := range colls {
+		docs := make([]cs.Doc, nseed)
+		for i := range docs {
+			d := gen.Fields(dcfg, int64(i)).Draw(rt, "seed-doc")
+			d["_id"] = gen.Id(i)
+			docs[i] = d
+		}
+		p.Setup = append(p.Setup, cs.Op{Kind: "insert", Coll: c, Docs: docs})
+		if rapid.Bool().Draw(rt, "seed-index") {
+			p.Setup = append(p.Setup, cs.Op{Kind: "createindex", Coll: c, Field: rapid.SampledFrom([]string{"x", "y", "u"}).Draw(rt, "seed-ixf")})
+		}
+	}
+	env := gen.CritEnv{Val: vcfg, Fields: []string{"x", "y", "u"}, MaxDepth: 2, NoFunc: true, NoLike: true, NoFieldRef: true, OnlyCmp: true}
+	crit := func() *cs.Crit {
+		if rapid.IntRange(0, 3).Draw(rt, "nocrit") == 0 {
+			return nil
+		}
+		return env.Crit(rt, rapid.IntRange(1, 2).Draw(rt, "critdepth"))
+	}
+	nclients := rapid.IntRange(2, 8).Draw(rt, "clients")
+	nextId := 100
+	for ci := 0; ci < nclients; ci++ {
+		nops := rapid.IntRange(2, 6).Draw(rt, "nops")
+		var ops []cs.Op
+		for j := 0; j < nops; j++ {
+			coll := rapid.SampledFrom(colls).Draw(rt, "coll")
+			switch rapid.SampledFrom(kinds).Draw(rt, "kind") {
+			case "biginsert":
+				// 2500 padded documents: more than one badger transaction of the in-memory store holds
+				// (it must be refused as a whole); a long single transaction on bbolt
+				ops = append(ops, cs.Op{Kind: "geninsert", Coll: coll, Gen: &cs.GenSpec{First: 700000 + 3000*(ci*8+j), N: 2500, Pad: 700, Mul: 1, Mod: 9}})
+			case "catalog":
+				// catalog operations racing on a small set of names
+				name := rapid.SampledFrom([]string{"A", "B", "C", "D"}).Draw(rt, "cname")
+				switch rapid.SampledFrom([]string{"createcoll", "createcoll", "dropcoll", "listcolls", "hascoll"}).Draw(rt, "ckind") {
+				case "createcoll":
+					ops = append(ops, cs.Op{Kind: "createcoll", Coll: name})
+				case "dropcoll":
+					ops = append(ops, cs.Op{Kind: "dropcoll", Coll: rapid.SampledFrom([]string{"C", "D", "B"}).Draw(rt, "dname")})
+				case "listcolls":
+					ops = append(ops, cs.Op{Kind: "listcolls"})
+				case "hascoll":
+					ops = append(ops, cs.Op{Kind: "hascoll", Coll: name})
+				}
+			case "insert":
+				nd := rapid.IntRange(1, 3).Draw(rt, "ndocs")
+				docs := make([]cs.Doc, nd)
+				for i := range docs {
+					d := gen.Fields(dcfg, int64(nextId)).Draw(rt, "doc")
+					d["_id"] = gen.Id(nextId)
+					if rapid.IntRange(0, 7).Draw(rt, "dup-id") == 0 {
+						d["_id"] = gen.Id(rapid.IntRange(0, nseed-1).Draw(rt, "dupk"))
+					}
+					nextId++
+					docs[i] = d
+				}
+				ops = append(ops, cs.Op{Kind: "insert", Coll: coll, Docs: docs})
+			case "updatebyid":
+				ops = append(ops, cs.Op{Kind: "updatebyid", Coll: coll, Id: &cs.IdRef{Lit: gen.Id(rapid.IntRange(0, nseed).Draw(rt, "idk"))},
+					Upd: &cs.Updater{Kind: rapid.SampledFrom([]string{"set", "inplace", "incr"}).Draw(rt, "updk"), Field: rapid.SampledFrom([]string{"x", "y", "u"}).Draw(rt, "updf"),
+						Value: cs.V{X: gen.Scalar(vcfg).Draw(rt, "updv")}, N: 1}})
+			case "update":
+				ops = append(ops, cs.Op{Kind: "update", Q: &cs.Query{Coll: coll, Crit: crit()}, UpdMap: map[string]cs.V{rapid.SampledFrom([]string{"x", "y"}).Draw(rt, "updf"): {X: gen.Scalar(vcfg).Draw(rt, "updv")}}})
+			case "updatefunc":
+				ops = append(ops, cs.Op{Kind: "updatefunc", Q: &cs.Query{Coll: coll, Crit: crit()}, Upd: &cs.Updater{Kind: rapid.SampledFrom([]string{"incr", "set", "delete"}).Draw(rt, "updk"), Field: "u", N: 10, Value: cs.V{X: int64(7)}}})
+			case "delete":
+				ops = append(ops, cs.Op{Kind: "delete", Q: &cs.Query{Coll: coll, Crit: crit()}})
+			case "deletebyid":
+				ops = append(ops, cs.Op{Kind: "deletebyid", Coll: coll, Id: &cs.IdRef{Lit: gen.Id(rapid.IntRange(0, nseed).Draw(rt, "idk"))}})
+			case "createindex", "dropindex":
+				k := rapid.SampledFrom([]string{"createindex", "dropindex"}).Draw(rt, "ixkind")
+				ops = append(ops, cs.Op{Kind: k, Coll: coll, Field: rapid.SampledFrom([]string{"x", "y", "u"}).Draw(rt, "ixf")})
+			case "find":
+				q := &cs.Query{Coll: coll, Crit: crit()}
+				if rapid.IntRange(0, 3).Draw(rt, "sorted") == 0 {
+					q.SortSet = true
+					q.Sort = []cs.SortOpt{{Field: rapid.SampledFrom([]string{"x", "u", "_id"}).Draw(rt, "sortf"), Dir: rapid.SampledFrom([]int{1, -1}).Draw(rt, "dir")}}
+				}
+				ops = append(ops, cs.Op{Kind: "find", Q: q})
+			case "count":
+				ops = append(ops, cs.Op{Kind: "count", Q: &cs.Query{Coll: coll, Crit: crit()}})
+			case "findbyid":
+				ops = append(ops, cs.Op{Kind: "findbyid", Coll: coll, Id: &cs.IdRef{Lit: gen.Id(rapid.IntRange(0, nseed).Draw(rt, "idk"))}})
+			}
+		}
+		p.Clients = append(p.Clients, ops)
+	}
+	p.Bits = rapid.SliceOfN(rapid.Byte(), 16, 64).Draw(rt, "schedule-bits")
+	return p, crit, nclients
+}
+
+// concurrentCase runs one generated concurrent program for the property `owner` and reports
+// a non-linearizable history as a violation of that property.
+func concurrentCase(rt *rapid.T, owner string, kinds []string) (*c07History, string) {
+	p, _, _ := genProgram07(rt, kinds)
+	h, f := runProgram07(p)
+	if f != nil {
+		prog := &sm.Program{Property: owner, Profile: "c07setup", Backend: p.Backend, Ops: p.Setup, Fail: f}
+		violate(rt, owner, "c07setup", prog, f)
+	}
+	verdict, f := checkHistory(h)
+	if f != nil {
+		if f.Property == "C07" {
+			f.Property = owner
+		}
+		violate(rt, owner, "c07", h, f)
+	}
+	return h, verdict
+}
+
 func TestC07(t *testing.T) {
 	col := collector("C07", ruleC07)
 	race := os.Getenv("VERIF_RACE") != ""
@@ -308,88 +457,8 @@ func TestC07(t *testing.T) {
 		n = ev.Scale(60, 1000)
 	}
 	check(t, "C07", n, 0, func(rt *rapid.T) {
-		backend := rapid.SampledFrom([]string{run.Bbolt, run.BadgerMem}).Draw(rt, "backend")
-		vcfg := gen.ValCfg{MaxDepth: 0, NoTime: true}
-		dcfg := gen.DocCfg{Val: vcfg, PAbsent: 4, Fields: []string{"x", "y", "u"}}
-		p := &c07Program{Backend: backend}
-		colls := []string{"A"}
-		p.Setup = append(p.Setup, cs.Op{Kind: "createcoll", Coll: "A"})
-		if rapid.Bool().Draw(rt, "two-colls") {
-			colls = append(colls, "B")
-			p.Setup = append(p.Setup, cs.Op{Kind: "createcoll", Coll: "B"})
-		}
-		nseed := rapid.IntRange(3, 8).Draw(rt, "nseed")
-		for _, c := range colls {
-			docs := make([]cs.Doc, nseed)
-			for i := range docs {
-				d := gen.Fields(dcfg, int64(i)).Draw(rt, "seed-doc")
-				d["_id"] = gen.Id(i)
-				docs[i] = d
-			}
-			p.Setup = append(p.Setup, cs.Op{Kind: "insert", Coll: c, Docs: docs})
-			if rapid.Bool().Draw(rt, "seed-index") {
-				p.Setup = append(p.Setup, cs.Op{Kind: "createindex", Coll: c, Field: rapid.SampledFrom([]string{"x", "y", "u"}).Draw(rt, "seed-ixf")})
-			}
-		}
-		env := gen.CritEnv{Val: vcfg, Fields: []string{"x", "y", "u"}, MaxDepth: 2, NoFunc: true, NoLike: true, NoFieldRef: true, OnlyCmp: true}
-		crit := func() *cs.Crit {
-			if rapid.IntRange(0, 3).Draw(rt, "nocrit") == 0 {
-				return nil
-			}
-			return env.Crit(rt, rapid.IntRange(1, 2).Draw(rt, "critdepth"))
-		}
-		nclients := rapid.IntRange(2, 8).Draw(rt, "clients")
-		nextId := 100
-		for ci := 0; ci < nclients; ci++ {
-			nops := rapid.IntRange(2, 6).Draw(rt, "nops")
-			var ops []cs.Op
-			for j := 0; j < nops; j++ {
-				coll := rapid.SampledFrom(colls).Draw(rt, "coll")
-				switch rapid.SampledFrom([]string{"insert", "insert", "updatebyid", "update", "updatefunc", "delete", "deletebyid", "createindex", "dropindex", "find", "find", "count", "findbyid"}).Draw(rt, "kind") {
-				case "insert":
-					nd := rapid.IntRange(1, 3).Draw(rt, "ndocs")
-					docs := make([]cs.Doc, nd)
-					for i := range docs {
-						d := gen.Fields(dcfg, int64(nextId)).Draw(rt, "doc")
-						d["_id"] = gen.Id(nextId)
-						if rapid.IntRange(0, 7).Draw(rt, "dup-id") == 0 {
-							d["_id"] = gen.Id(rapid.IntRange(0, nseed-1).Draw(rt, "dupk"))
-						}
-						nextId++
-						docs[i] = d
-					}
-					ops = append(ops, cs.Op{Kind: "insert", Coll: coll, Docs: docs})
-				case "updatebyid":
-					ops = append(ops, cs.Op{Kind: "updatebyid", Coll: coll, Id: &cs.IdRef{Lit: gen.Id(rapid.IntRange(0, nseed).Draw(rt, "idk"))},
-						Upd: &cs.Updater{Kind: rapid.SampledFrom([]string{"set", "inplace", "incr"}).Draw(rt, "updk"), Field: rapid.SampledFrom([]string{"x", "y", "u"}).Draw(rt, "updf"),
-							Value: cs.V{X: gen.Scalar(vcfg).Draw(rt, "updv")}, N: 1}})
-				case "update":
-					ops = append(ops, cs.Op{Kind: "update", Q: &cs.Query{Coll: coll, Crit: crit()}, UpdMap: map[string]cs.V{rapid.SampledFrom([]string{"x", "y"}).Draw(rt, "updf"): {X: gen.Scalar(vcfg).Draw(rt, "updv")}}})
-				case "updatefunc":
-					ops = append(ops, cs.Op{Kind: "updatefunc", Q: &cs.Query{Coll: coll, Crit: crit()}, Upd: &cs.Updater{Kind: rapid.SampledFrom([]string{"incr", "set", "delete"}).Draw(rt, "updk"), Field: "u", N: 10, Value: cs.V{X: int64(7)}}})
-				case "delete":
-					ops = append(ops, cs.Op{Kind: "delete", Q: &cs.Query{Coll: coll, Crit: crit()}})
-				case "deletebyid":
-					ops = append(ops, cs.Op{Kind: "deletebyid", Coll: coll, Id: &cs.IdRef{Lit: gen.Id(rapid.IntRange(0, nseed).Draw(rt, "idk"))}})
-				case "createindex", "dropindex":
-					k := rapid.SampledFrom([]string{"createindex", "dropindex"}).Draw(rt, "ixkind")
-					ops = append(ops, cs.Op{Kind: k, Coll: coll, Field: rapid.SampledFrom([]string{"x", "y", "u"}).Draw(rt, "ixf")})
-				case "find":
-					q := &cs.Query{Coll: coll, Crit: crit()}
-					if rapid.IntRange(0, 3).Draw(rt, "sorted") == 0 {
-						q.SortSet = true
-						q.Sort = []cs.SortOpt{{Field: rapid.SampledFrom([]string{"x", "u", "_id"}).Draw(rt, "sortf"), Dir: rapid.SampledFrom([]int{1, -1}).Draw(rt, "dir")}}
-					}
-					ops = append(ops, cs.Op{Kind: "find", Q: q})
-				case "count":
-					ops = append(ops, cs.Op{Kind: "count", Q: &cs.Query{Coll: coll, Crit: crit()}})
-				case "findbyid":
-					ops = append(ops, cs.Op{Kind: "findbyid", Coll: coll, Id: &cs.IdRef{Lit: gen.Id(rapid.IntRange(0, nseed).Draw(rt, "idk"))}})
-				}
-			}
-			p.Clients = append(p.Clients, ops)
-		}
-		p.Bits = rapid.SliceOfN(rapid.Byte(), 16, 64).Draw(rt, "schedule-bits")
+		p, crit, nclients := genProgram07(rt, nil)
+		backend := p.Backend
 
 		h, f := runProgram07(p)
 		if f != nil {
